@@ -744,12 +744,18 @@ def traverse(node):
             continue
 
         child = traversing.child
-        child_id = id(child)
 
-        if child_id in visited:
-            continue
+        # Only remember objects and containers. Leaf values are often the same
+        # object (None, small numbers, interned strings), and every occurrence
+        # of a leaf must be reported.
+        if isinstance(child, (list, tuple, dict, ParsedObject)):
+            child_id = id(child)
 
-        visited.add(child_id)
+            if child_id in visited:
+                continue
+
+            visited.add(child_id)
+
         stack.append(traversing._replace(is_finished=True))
         yield traversing
 
